@@ -36,6 +36,7 @@ def dispatch (l : Line) : List Verdict :=
   | "proxycmds" => handleProxyCmds l
   | "ssocookie" => handleSsoCookie l
   | "cb" => handleCb l
+  | "cbrace" => handleCbRace l
   | "idtok" => handleIdTok l
   | "idtokburst" => handleIdTokBurst l
   | "login13" => handleLogin13 l
